@@ -15,6 +15,7 @@ MAXOUT = 20000    # distinct outcomes kept
 inf = float('inf')
 _CRUMB_FD = None
 HANG_S = float(os.environ.get('VERIF_HANG_S', '90'))
+_LAST_BEAT = 0.0
 
 
 def jsonable(x):
@@ -78,8 +79,12 @@ class Acc:
 
     def case(self, sub=None, nontrivial=False):
         self.states += 1
-        if _CRUMB_FD is not None and (self.states & 127) == 0:
-            os.pwrite(_CRUMB_FD, b'.', 9000)     # heartbeat for the hang watchdog
+        if _CRUMB_FD is not None:
+            global _LAST_BEAT
+            t = time.monotonic()
+            if t - _LAST_BEAT > 1.0:             # heartbeat for the hang watchdog, at most once per second
+                _LAST_BEAT = t
+                os.pwrite(_CRUMB_FD, b'.', 9000)
         if nontrivial:
             self.nontrivial += 1
         if sub is not None:
